@@ -637,6 +637,13 @@ def layer_fidelity(node):
         if left:
             out.append(("layer-records:graph-node-left-in-record", f"{cname} [{how}]: record {r[0]} carries {sorted(set(left))} in its arguments"))
             break
+    else:
+        # the references a worker resolves BY KEY STRING (never through Python equality of key tuples): canonical key types in embedded
+        # references, set of str(embedded key) == declared deps, no NumPy scalar repr in key / dep strings (harness.props_ext.c21_catalog)
+        from harness.props_ext.c21_catalog import ref_audit
+
+        for kind, detail in ref_audit(recs):
+            out.append(("layer-records:" + kind, f"{cname} [{how}]: {detail}"))
     return out, how
 
 
